@@ -204,6 +204,11 @@ def setprop (T : Tables) (w : World) (inst par key : Name) (val : PVal) : World 
 
 def nextEnum (ms : List (String × Int)) : Int := ms.foldl (fun m kv => max m kv.2) 0 + 1
 
+/-- the heap after `register_input`: a new enum datatype object, and the accessible at `r` pointing to it -/
+def enumHeap (h : Heap) (r : Ref) (a : AccH) (t : DTree) (member : Name) : Heap :=
+  List.set (h ++ [.dt (.node "enum" [] [] (t.members ++ [(member, nextEnum t.members)]))]) r
+    (.acc { a with dtype := some h.length })
+
 /-- `register_input` (mixins.py:36-49): the datatype object is **replaced** by a new enum -/
 def addEnum (w : World) (inst par member : Name) : World :=
   match aget? (w.accessiblesOf (.inst inst)) par with
@@ -211,8 +216,7 @@ def addEnum (w : World) (inst par member : Name) : World :=
     | some a => match a.dtype with
       | some rd => match w.heap.dtAt rd with
         | some t =>
-          let (h1, rn) := w.heap.alloc (.dt (.node "enum" [] [] (t.members ++ [(member, nextEnum t.members)])))
-          { w with heap := h1.set r (.acc { a with dtype := some rn }) }
+          { w with heap := enumHeap w.heap r a t member }
         | none => w
       | none => w
     | none => w
